@@ -515,7 +515,28 @@ func prop(c Case) error {
 	if err != nil {
 		return fmt.Errorf("decoding the re-encoding failed: %v", err)
 	}
-	return sameAs("decode(encode(decode(x)))", g, g2)
+	if err := sameAs("decode(encode(decode(x)))", g, g2); err != nil {
+		return err
+	}
+	// the decoded geometry is the caller's to overwrite: the same input decodes as before
+	before, err := model.FromGeom(g)
+	if err != nil {
+		return err
+	}
+	model.Spoil(g)
+	model.Spoil(g2)
+	g3, err := d.unmarshal(c.Data)
+	if err != nil {
+		return fmt.Errorf("the same input, decoded again after the caller overwrote the earlier result: %v", err)
+	}
+	after, err := model.FromGeom(g3)
+	if err != nil {
+		return fmt.Errorf("the same input, decoded again after the caller overwrote the earlier result: %v", err)
+	}
+	if df := model.Diff(before, after, true); df != "" {
+		return fmt.Errorf("the same input decodes differently after the caller overwrote the geometry decoded from it before: %s", df)
+	}
+	return nil
 }
 
 func sameAs(what string, a, b geom.T) error {
